@@ -1,4 +1,8 @@
-(* Schedule- and history-independence of what a compilation reads from the process-global state. *)
+(* Schedule- and history-independence of what a thread reads from the process-global state.
+   Since the repair 2f50a3c (LogSuppressLock::drop saturates) NO step of the machine -- compile steps and the debug
+   API alike -- can panic on or poison the log lock, so the invariant no longer needs the count of held suppress
+   locks and the theorems hold for ARBITRARY programs of the threads (compilations and debug-API calls mixed, on any
+   number of threads, under any schedule). *)
 From Coq Require Import List NArith Bool Arith Lia.
 From PV Require Import Model.Globals.
 Import ListNotations.
@@ -11,31 +15,16 @@ Section GlobalsProofs.
   Notation run := (run cell_init env).
   Notation expected_reads := (expected_reads cell_init env).
 
-  Definition total_held (ts : list thread) : nat := list_sum (map t_held ts).
-
   Definition cells_ok (g : gstate) : Prop := forall c v, cell_get c (g_cells g) = Some v -> v = cell_init c.
 
-  Definition held_ok (g : gstate) (ts : list thread) : Prop :=
-    match g_log g with Some (_, n) => total_held ts <= n | None => total_held ts = 0 end.
-
   Definition GInv (g : gstate) : Prop := g_poisoned g = false /\ cells_ok g.
-  Definition Inv (g : gstate) (ts : list thread) : Prop := GInv g /\ held_ok g ts.
 
-  (* thread t is running program prog correctly so far *)
+  (* thread t is running program prog correctly so far (prog: ANY steps) *)
   Definition good (prog : list step) (t : thread) : Prop :=
-    t_panicked t = false /\ forallb compile_step (t_todo t) = true /\
-    t_reads t ++ expected_reads (t_todo t) = expected_reads prog.
+    t_panicked t = false /\ t_reads t ++ expected_reads (t_todo t) = expected_reads prog.
 
   Lemma cell_eqb_eq a b : cell_eqb a b = true -> a = b.
   Proof. destruct a, b; cbn; intro H; try discriminate; reflexivity. Qed.
-
-  Lemma total_held_upd : forall ts i t t', nth_error ts i = Some t ->
-    total_held (upd ts i t') + t_held t = total_held ts + t_held t'.
-  Proof.
-    unfold total_held. induction ts as [|x ts IH]; intros [|i] t t' H; cbn in H; try discriminate.
-    - injection H as ->. cbn. lia.
-    - specialize (IH i t t' H). cbn [upd map list_sum]. simpl. lia.
-  Qed.
 
   Lemma nth_error_upd_same : forall ts i t t', nth_error ts i = Some t -> nth_error (upd ts i t') i = Some t'.
   Proof. induction ts as [|x ts IH]; intros [|i] t t' H; cbn in *; try discriminate; [reflexivity | eapply IH; eauto]. Qed.
@@ -49,190 +38,161 @@ Section GlobalsProofs.
   Lemma length_upd : forall ts i t', length (upd ts i t') = length ts.
   Proof. induction ts as [|x ts IH]; intros [|i] t'; cbn; try reflexivity. rewrite IH. reflexivity. Qed.
 
-  (* one step of a good thread preserves everything *)
-  Lemma tstep_good g ts i t prog g' t' :
-    Inv g ts -> nth_error ts i = Some t -> good prog t -> tstep g t = (g', t') ->
-    Inv g' (upd ts i t') /\ good prog t'.
+  (* one atomic step, whichever it is and however many suppress locks the thread holds: the state stays good, the
+     step does not panic, and what it reads is the constant *)
+  Lemma gstep_inv g held s : GInv g ->
+    GInv (fst (fst (gstep g held s))) /\
+    match snd (fst (gstep g held s)) with
+    | OPanic => False
+    | ORead v => match s with SGetOrInit c => v = cell_init c | SReadEnv => v = env | _ => False end
+    | ONone => match s with SGetOrInit _ | SReadEnv => False | _ => True end
+    end.
   Proof.
-    intros [[Hpo Hcells] Hheld] Hnth [Hpan [Hall Hreads]] Hstep.
-    unfold Globals.tstep in Hstep. rewrite Hpan in Hstep.
-    pose proof (total_held_upd ts i t) as Hupd.
-    destruct (t_todo t) as [|s rest] eqn:Etodo.
-    { injection Hstep as <- <-. split.
-      - split; [split; assumption|]. unfold held_ok in *. specialize (Hupd t Hnth).
-        destruct (g_log g) as [[es n]|]; lia.
-      - split; [exact Hpan|]. rewrite Etodo. split; [reflexivity | exact Hreads]. }
-    cbn [forallb] in Hall. apply andb_true_iff in Hall as [Hs Hall].
-    unfold held_ok in Hheld.
-    destruct s; cbn [compile_step] in Hs; try discriminate Hs;
-      cbn [Globals.gstep] in Hstep; try rewrite Hpo in Hstep.
-    - (* SLogEntry *)
-      destruct (g_log g) as [[es [|n]]|] eqn:El; injection Hstep as <- <-;
-        (split; [split; [split; [reflexivity || exact Hpo | exact Hcells]|] | split; [reflexivity | split; [exact Hall | exact Hreads]]]);
-        unfold held_ok; cbn [g_log]; try rewrite El; specialize (Hupd (mkT rest (t_reads t) (t_held t) false) Hnth); cbn [t_held] in Hupd; lia.
-    - (* SLogEnabled *)
-      injection Hstep as <- <-.
-      split; [split; [split; [exact Hpo | exact Hcells]|] | split; [reflexivity | split; [exact Hall | exact Hreads]]].
-      unfold held_ok. specialize (Hupd (mkT rest (t_reads t) (t_held t) false) Hnth). cbn [t_held] in Hupd.
-      destruct (g_log g) as [[es n]|]; lia.
-    - (* SSuppressInc *)
-      destruct (g_log g) as [[es n]|] eqn:El; injection Hstep as <- <-;
-        (split; [split; [split; [reflexivity || exact Hpo | exact Hcells]|] | split; [reflexivity | split; [exact Hall | exact Hreads]]]);
-        unfold held_ok; cbn [g_log]; try rewrite El.
-      + specialize (Hupd (mkT rest (t_reads t) (S (t_held t)) false) Hnth). cbn [t_held] in Hupd. lia.
-      + specialize (Hupd (mkT rest (t_reads t) (t_held t) false) Hnth). cbn [t_held] in Hupd. lia.
+    intros [Hpo Hcells]. destruct s; cbn [Globals.gstep]; try rewrite Hpo.
+    - (* SLogEntry *) destruct (g_log g) as [[es [|n]]|]; cbn [fst snd]; (split; [split; [reflexivity || exact Hpo | exact Hcells] | exact I]).
+    - (* SLogEnabled *) cbn [fst snd]. split; [split; assumption | exact I].
+    - (* SSuppressInc *) destruct (g_log g) as [[es n]|]; cbn [fst snd]; (split; [split; [reflexivity || exact Hpo | exact Hcells] | exact I]).
     - (* SSuppressDec *)
-      destruct (t_held t) as [|h] eqn:Eh.
-      + injection Hstep as <- <-.
-        split; [split; [split; [exact Hpo | exact Hcells]|] | split; [reflexivity | split; [exact Hall | exact Hreads]]].
-        unfold held_ok. specialize (Hupd (mkT rest (t_reads t) 0 false) Hnth). cbn [t_held] in Hupd.
-        destruct (g_log g) as [[es n]|]; lia.
-      + assert (t_held t <= total_held ts) as Hle.
-        { clear - Hnth. unfold total_held. revert i Hnth. induction ts as [|x ts IH]; intros [|i] H; cbn in H; try discriminate.
-          - injection H as ->. simpl. lia.
-          - specialize (IH i H). simpl. lia. }
-        destruct (g_log g) as [[es [|n]]|] eqn:El; try lia.
-        injection Hstep as <- <-.
-        split; [split; [split; [reflexivity | exact Hcells]|] | split; [reflexivity | split; [exact Hall | exact Hreads]]].
-        unfold held_ok. cbn [g_log]. specialize (Hupd (mkT rest (t_reads t) h false) Hnth). cbn [t_held] in Hupd. lia.
+      destruct held as [|h]; [cbn [fst snd]; split; [split; assumption | exact I]|].
+      destruct (g_log g) as [[es n]|]; cbn [fst snd]; (split; [split; [reflexivity || exact Hpo | exact Hcells] | exact I]).
     - (* SGetOrInit *)
-      cbn [Globals.expected_reads] in Hreads.
-      destruct (cell_get c (g_cells g)) as [v|] eqn:Ec; injection Hstep as <- <-.
-      + pose proof (Hcells c v Ec) as ->.
-        split; [split; [split; [exact Hpo | exact Hcells]|] | split; [reflexivity | split; [exact Hall|]]].
-        * unfold held_ok. specialize (Hupd (mkT rest (t_reads t ++ [cell_init c]) (t_held t) false) Hnth). cbn [t_held] in Hupd.
-          destruct (g_log g) as [[es n]|]; lia.
-        * cbn [t_reads t_todo]. rewrite <- app_assoc. exact Hreads.
-      + split; [split; [split; [reflexivity || exact Hpo|]|] | split; [reflexivity | split; [exact Hall|]]].
-        * intros c' v'. cbn [g_cells cell_get]. destruct (cell_eqb c' c) eqn:Ee.
-          -- apply cell_eqb_eq in Ee. subst. intro H; injection H as <-. reflexivity.
-          -- apply Hcells.
-        * unfold held_ok. cbn [g_log]. specialize (Hupd (mkT rest (t_reads t ++ [cell_init c]) (t_held t) false) Hnth). cbn [t_held] in Hupd.
-          destruct (g_log g) as [[es n]|]; lia.
-        * cbn [t_reads t_todo]. rewrite <- app_assoc. exact Hreads.
-    - (* SReadEnv *)
-      cbn [Globals.expected_reads] in Hreads. injection Hstep as <- <-.
-      split; [split; [split; [exact Hpo | exact Hcells]|] | split; [reflexivity | split; [exact Hall|]]].
-      + unfold held_ok. specialize (Hupd (mkT rest (t_reads t ++ [env]) (t_held t) false) Hnth). cbn [t_held] in Hupd.
-        destruct (g_log g) as [[es n]|]; lia.
-      + cbn [t_reads t_todo]. rewrite <- app_assoc. exact Hreads.
+      destruct (cell_get c (g_cells g)) as [v|] eqn:Ec; cbn [fst snd].
+      + split; [split; [reflexivity || exact Hpo | exact Hcells] | apply Hcells; exact Ec].
+      + split; [|reflexivity]. split; [reflexivity || exact Hpo|].
+        intros c' v'. cbn [g_cells cell_get]. destruct (cell_eqb c' c) eqn:Ee.
+        * apply cell_eqb_eq in Ee. subst. intro H; injection H as <-. reflexivity.
+        * apply Hcells.
+    - (* SReadEnv *) cbn [fst snd]. split; [split; [reflexivity || exact Hpo | exact Hcells] | reflexivity].
+    - (* SLogStart *) cbn [fst snd]. split; [split; [reflexivity || exact Hpo | exact Hcells] | exact I].
+    - (* SLogFinish *) cbn [fst snd]. split; [split; [reflexivity | exact Hcells] | exact I].
+  Qed.
+
+  (* one step of a good thread preserves everything *)
+  Lemma tstep_good g t prog g' t' :
+    GInv g -> good prog t -> tstep g t = (g', t') -> GInv g' /\ good prog t'.
+  Proof.
+    intros HG [Hpan Hreads] Hstep.
+    unfold Globals.tstep in Hstep. rewrite Hpan in Hstep.
+    destruct (t_todo t) as [|s rest] eqn:Etodo.
+    { injection Hstep as <- <-. split; [exact HG|]. split; [exact Hpan|]. rewrite Etodo. exact Hreads. }
+    pose proof (gstep_inv g (t_held t) s HG) as [HG' Hout].
+    destruct (gstep g (t_held t) s) as [[g1 o] h]. cbn [fst snd] in HG', Hout.
+    destruct o as [|v|]; [| |destruct Hout].
+    - injection Hstep as <- <-. split; [exact HG'|]. split; [reflexivity|]. cbn [t_reads t_todo].
+      destruct s; try (exfalso; exact Hout); exact Hreads.
+    - injection Hstep as <- <-. split; [exact HG'|]. split; [reflexivity|]. cbn [t_reads t_todo].
+      destruct s; try (exfalso; exact Hout); subst v; cbn [Globals.expected_reads] in Hreads; rewrite <- app_assoc; exact Hreads.
   Qed.
 
   Definition all_good (progs : list (list step)) (ts : list thread) : Prop :=
     length progs = length ts /\ forall i p t, nth_error progs i = Some p -> nth_error ts i = Some t -> good p t.
 
   Lemma run_good : forall sched g ts progs,
-    Inv g ts -> all_good progs ts ->
-    Inv (fst (run g ts sched)) (snd (run g ts sched)) /\ all_good progs (snd (run g ts sched)).
+    GInv g -> all_good progs ts ->
+    GInv (fst (run g ts sched)) /\ all_good progs (snd (run g ts sched)).
   Proof.
     induction sched as [|i sched IH]; intros g ts progs HI [Hlen HG]; cbn [Globals.run]; [split; [exact HI | split; assumption]|].
     destruct (nth_error ts i) as [t|] eqn:Et; [|apply IH; [exact HI | split; assumption]].
     destruct (tstep g t) as [g' t'] eqn:Es.
     destruct (nth_error progs i) as [p|] eqn:Ep.
     2: { apply nth_error_None in Ep. assert (i < length ts) by (apply nth_error_Some; congruence). lia. }
-    destruct (tstep_good g ts i t p g' t' HI Et (HG i p t Ep Et) Es) as [HI' Hg'].
+    destruct (tstep_good g t p g' t' HI (HG i p t Ep Et) Es) as [HI' Hg'].
     apply IH; [exact HI'|]. split; [rewrite length_upd; exact Hlen|].
     intros j q u Hq Hu. destruct (Nat.eq_dec i j) as [<-|Hne].
     - rewrite (nth_error_upd_same ts i t t' Et) in Hu. injection Hu as <-. rewrite Ep in Hq. injection Hq as <-. exact Hg'.
     - rewrite nth_error_upd_other in Hu by exact Hne. eapply HG; eauto.
   Qed.
 
-  Lemma spawn_good p : forallb compile_step p = true -> good p (spawn p).
-  Proof. intro H. unfold good, spawn. cbn [t_panicked t_todo t_reads]. split; [reflexivity | split; [exact H | reflexivity]]. Qed.
+  Lemma spawn_good p : good p (spawn p).
+  Proof. unfold good, spawn. cbn [t_panicked t_todo t_reads]. split; reflexivity. Qed.
 
-  Lemma total_held_spawn progs : total_held (map spawn progs) = 0.
-  Proof. unfold total_held. induction progs as [|p ps IH]; [reflexivity|]. cbn [map]. simpl. exact IH. Qed.
-
-  Lemma spawn_all_good progs :
-    Forall (fun p => forallb compile_step p = true) progs -> all_good progs (map spawn progs).
+  Lemma spawn_all_good progs : all_good progs (map spawn progs).
   Proof.
-    intro H. split; [rewrite map_length; reflexivity|].
-    intros i p t Hp Ht. rewrite nth_error_map, Hp in Ht. cbn in Ht. injection Ht as <-.
-    apply spawn_good. rewrite Forall_forall in H. apply H. eapply nth_error_In; eauto.
+    split; [rewrite map_length; reflexivity|].
+    intros i p t Hp Ht. rewrite nth_error_map, Hp in Ht. cbn in Ht. injection Ht as <-. apply spawn_good.
   Qed.
 
-  Lemma Inv_spawn g progs : GInv g -> Inv g (map spawn progs).
-  Proof.
-    intro HG. split; [exact HG|]. unfold held_ok. rewrite total_held_spawn. destruct (g_log g) as [[es n]|]; lia.
-  Qed.
-
-  (* Every compilation that runs to completion has read exactly the constants, whatever the other threads do
-     and whatever compilations ran before (g is any state satisfying GInv). *)
+  (* Every thread that runs to completion has read exactly the constants, whatever the other threads do -- compile,
+     start, restart or finish the debug log -- and whatever ran before (g is any state satisfying GInv). *)
   Theorem reads_schedule_independent g progs sched :
-    GInv g -> Forall (fun p => forallb compile_step p = true) progs ->
+    GInv g ->
     forall i p t, nth_error progs i = Some p -> nth_error (snd (run g (map spawn progs) sched)) i = Some t ->
     finished t = true -> t_reads t = expected_reads p.
   Proof.
-    intros HG Hall i p t Hp Ht Hfin.
-    destruct (run_good sched g (map spawn progs) progs (Inv_spawn g progs HG) (spawn_all_good progs Hall)) as [_ [_ Hgood]].
-    destruct (Hgood i p t Hp Ht) as [_ [_ Hr]].
+    intros HG i p t Hp Ht Hfin.
+    destruct (run_good sched g (map spawn progs) progs HG (spawn_all_good progs)) as [_ [_ Hgood]].
+    destruct (Hgood i p t Hp Ht) as [_ Hr].
     unfold finished in Hfin. destruct (t_todo t); [|discriminate]. cbn in Hr. rewrite app_nil_r in Hr. exact Hr.
   Qed.
 
-  (* no compile step can poison the lock or panic: every thread that was scheduled often enough finishes *)
+  (* no step can poison the lock or panic: every thread that was scheduled often enough finishes *)
   Theorem never_panics g progs sched :
-    GInv g -> Forall (fun p => forallb compile_step p = true) progs ->
+    GInv g ->
     forall i t, nth_error (snd (run g (map spawn progs) sched)) i = Some t -> t_panicked t = false.
   Proof.
-    intros HG Hall i t Ht.
-    destruct (run_good sched g (map spawn progs) progs (Inv_spawn g progs HG) (spawn_all_good progs Hall)) as [_ [Hlen Hgood]].
+    intros HG i t Ht.
+    destruct (run_good sched g (map spawn progs) progs HG (spawn_all_good progs)) as [_ [Hlen Hgood]].
     destruct (nth_error progs i) as [p|] eqn:Ep.
     - destruct (Hgood i p t Ep Ht) as [H _]. exact H.
     - apply nth_error_None in Ep. assert (i < length (snd (run g (map spawn progs) sched))) by (apply nth_error_Some; congruence). lia.
   Qed.
 
-  (* any state reached by any schedule of any compile-only programs (complete or cut short) is again a good start *)
+  (* any state reached by any schedule of any programs (complete or cut short) is again a good start *)
   Theorem history_preserves_GInv g progs sched :
-    GInv g -> Forall (fun p => forallb compile_step p = true) progs -> GInv (fst (run g (map spawn progs) sched)).
+    GInv g -> GInv (fst (run g (map spawn progs) sched)).
   Proof.
-    intros HG Hall.
-    destruct (run_good sched g (map spawn progs) progs (Inv_spawn g progs HG) (spawn_all_good progs Hall)) as [[H _] _]. exact H.
+    intros HG. destruct (run_good sched g (map spawn progs) progs HG (spawn_all_good progs)) as [H _]. exact H.
   Qed.
+
+  Theorem never_poisons g progs sched :
+    GInv g -> g_poisoned (fst (run g (map spawn progs) sched)) = false.
+  Proof. intro HG. destruct (history_preserves_GInv g progs sched HG) as [H _]. exact H. Qed.
 
   Lemma GInv_init : GInv g_init.
   Proof. split; [reflexivity|]. intros c v H. discriminate H. Qed.
 
   Theorem interleaving_independent progs sched i p t :
-    Forall (fun p => forallb compile_step p = true) progs ->
     nth_error progs i = Some p -> nth_error (snd (run g_init (map spawn progs) sched)) i = Some t -> finished t = true ->
     forall t1, nth_error (snd (run g_init [spawn p] (repeat 0 (length p)))) 0 = Some t1 -> finished t1 = true ->
     t_reads t = t_reads t1.
   Proof.
-    intros Hall Hp Ht Hf t1 Ht1 Hf1.
-    rewrite (reads_schedule_independent g_init progs sched GInv_init Hall i p t Hp Ht Hf).
-    assert (Forall (fun p => forallb compile_step p = true) [p]) as Hall1.
-    { constructor; [|constructor]. rewrite Forall_forall in Hall. apply Hall. eapply nth_error_In; eauto. }
-    symmetry. apply (reads_schedule_independent g_init [p] (repeat 0 (length p)) GInv_init Hall1 0 p t1 eq_refl Ht1 Hf1).
+    intros Hp Ht Hf t1 Ht1 Hf1.
+    rewrite (reads_schedule_independent g_init progs sched GInv_init i p t Hp Ht Hf).
+    symmetry. apply (reads_schedule_independent g_init [p] (repeat 0 (length p)) GInv_init 0 p t1 eq_refl Ht1 Hf1).
   Qed.
 
+  (* the thread really finishes when it runs alone for length p steps: the conclusion above is not vacuous *)
+  Lemma run_alone_finishes : forall p g t, GInv g -> t_panicked t = false -> t_todo t = p ->
+    exists t1, nth_error (snd (run g [t] (repeat 0 (length p)))) 0 = Some t1 /\ finished t1 = true.
+  Proof.
+    induction p as [|s p IH]; intros g t HG Hpan Htodo.
+    - exists t. cbn. split; [reflexivity|]. unfold finished. rewrite Htodo, Hpan. reflexivity.
+    - cbn [length repeat Globals.run nth_error].
+      destruct (tstep g t) as [g' t'] eqn:Es. cbn [upd].
+      assert (GInv g' /\ t_panicked t' = false /\ t_todo t' = p) as [HG' [Hpan' Htodo']].
+      { unfold Globals.tstep in Es. rewrite Hpan, Htodo in Es.
+        pose proof (gstep_inv g (t_held t) s HG) as [HG1 Hout].
+        destruct (gstep g (t_held t) s) as [[g1 o] h]. cbn [fst snd] in HG1, Hout.
+        destruct o; [| |destruct Hout]; injection Es as <- <-; auto. }
+      apply IH; assumption.
+  Qed.
+
+  Theorem alone_finishes p : exists t1,
+    nth_error (snd (run g_init [spawn p] (repeat 0 (length p)))) 0 = Some t1 /\ finished t1 = true.
+  Proof. apply run_alone_finishes; [exact GInv_init | reflexivity | reflexivity]. Qed.
+
   Theorem history_independent hist hsched p sched t :
-    Forall (fun q => forallb compile_step q = true) hist -> forallb compile_step p = true ->
     let g := fst (run g_init (map spawn hist) hsched) in
     nth_error (snd (run g [spawn p] sched)) 0 = Some t -> finished t = true ->
     t_reads t = expected_reads p.
   Proof.
-    intros Hh Hp g Ht Hf.
-    apply (reads_schedule_independent g [p] sched (history_preserves_GInv g_init hist hsched GInv_init Hh)
-             (Forall_cons _ Hp (Forall_nil _)) 0 p t eq_refl Ht Hf).
+    intros g Ht Hf.
+    apply (reads_schedule_independent g [p] sched (history_preserves_GInv g_init hist hsched GInv_init) 0 p t eq_refl Ht Hf).
   Qed.
 
-  (* the debug API between compilations: log_start / log_finish never poison the lock and do not touch the cells *)
-  Lemma api_step_GInv g s : GInv g -> compile_step s = false -> GInv (fst (fst (gstep g 0 s))).
-  Proof.
-    intros [Hp Hc] Hs. destruct s; cbn [compile_step] in Hs; try discriminate Hs; cbn [Globals.gstep].
-    - split; [exact Hp | exact Hc].
-    - rewrite Hp. split; [reflexivity | exact Hc].
-  Qed.
-
-  (* a history: batches of concurrent compilations (any schedule, complete or cut short), with calls of the debug
-     API between the batches *)
+  (* a history: batches of concurrent threads (any steps, any schedule, complete or cut short), with calls of the
+     debug API between the batches *)
   Inductive hitem := HCompiles (progs : list (list step)) (sched : list nat) | HApi (s : step).
-
-  Definition hitem_ok (h : hitem) : Prop :=
-    match h with
-    | HCompiles progs _ => Forall (fun q => forallb compile_step q = true) progs
-    | HApi s => compile_step s = false
-    end.
 
   Definition hstep (g : gstate) (h : hitem) : gstate :=
     match h with
@@ -240,25 +200,40 @@ Section GlobalsProofs.
     | HApi s => fst (fst (gstep g 0 s))
     end.
 
-  Lemma history_GInv hist : Forall hitem_ok hist -> forall g, GInv g -> GInv (fold_left hstep hist g).
+  Lemma history_GInv hist : forall g, GInv g -> GInv (fold_left hstep hist g).
   Proof.
-    induction hist as [|h hist IH]; intros Hok g HG; [exact HG|].
-    inversion Hok as [|? ? Hh Hrest]; subst. cbn [fold_left]. apply IH; [exact Hrest|].
-    destruct h as [progs sched|s]; cbn [hstep hitem_ok] in *.
+    induction hist as [|h hist IH]; intros g HG; [exact HG|].
+    cbn [fold_left]. apply IH.
+    destruct h as [progs sched|s]; cbn [hstep].
     - apply history_preserves_GInv; assumption.
-    - apply api_step_GInv; assumption.
+    - apply gstep_inv; assumption.
   Qed.
 
   Theorem history_with_api_independent hist p sched t :
-    Forall hitem_ok hist -> forallb compile_step p = true ->
     let g := fold_left hstep hist g_init in
     nth_error (snd (run g [spawn p] sched)) 0 = Some t -> finished t = true ->
     t_reads t = expected_reads p /\ t_panicked t = false.
   Proof.
-    intros Hh Hp g Ht Hf.
-    pose proof (history_GInv hist Hh g_init GInv_init) as HG.
+    intros g Ht Hf.
+    pose proof (history_GInv hist g_init GInv_init) as HG.
     split.
-    - apply (reads_schedule_independent g [p] sched HG (Forall_cons _ Hp (Forall_nil _)) 0 p t eq_refl Ht Hf).
-    - apply (never_panics g [p] sched HG (Forall_cons _ Hp (Forall_nil _)) 0 t Ht).
+    - apply (reads_schedule_independent g [p] sched HG 0 p t eq_refl Ht Hf).
+    - apply (never_panics g [p] sched HG 0 t Ht).
+  Qed.
+
+  (* the debug API used CONCURRENTLY with compilations (was false: F10j): after any history, threads that compile and
+     threads that start / restart / finish the log in any interleaving -- nobody panics, the lock is not poisoned, and
+     every thread that completes has read the constants *)
+  Theorem concurrent_api_independent hist progs sched :
+    let g := fold_left hstep hist g_init in
+    g_poisoned (fst (run g (map spawn progs) sched)) = false /\
+    forall i p t, nth_error progs i = Some p -> nth_error (snd (run g (map spawn progs) sched)) i = Some t ->
+      t_panicked t = false /\ (finished t = true -> t_reads t = expected_reads p).
+  Proof.
+    intro g. pose proof (history_GInv hist g_init GInv_init) as HG. split.
+    - apply never_poisons. exact HG.
+    - intros i p t Hp Ht. split.
+      + apply (never_panics g progs sched HG i t Ht).
+      + intro Hf. apply (reads_schedule_independent g progs sched HG i p t Hp Ht Hf).
   Qed.
 End GlobalsProofs.
